@@ -464,6 +464,10 @@ class Engine:
             return v
         if isinstance(v, Opaque) and v.ty == "symslice" and p[0] == "f":
             return Int(z3.Select(v.attrs["arr"], z3.BitVecVal(p[1], 64)), "u8")
+        if isinstance(v, Opaque) and v.ty in ("symslice", "inputslice") and p[0] == "i":
+            iv = p[1]
+            ie = iv.e if iv.width == 64 else z3.ZeroExt(64 - iv.width, iv.e)
+            return Int(z3.Select(v.attrs["arr"], ie), "u8")
         if p[0] == "f":
             if isinstance(v, Agg):
                 if p[1] >= len(v.fields):
@@ -794,10 +798,15 @@ class Engine:
                 w = v
                 while isinstance(w, Ref) and w.addr[0] == "V":
                     w = w.addr[1]
-                if isinstance(w, Opaque) and w.ty == "symslice":
+                if isinstance(w, Opaque) and w.ty in ("symslice", "inputslice"):
                     return Int(w.attrs["len"], "usize")
+                if isinstance(w, Opaque) and w.ty == "fragment":
+                    return Int(w.attrs["hi"] - w.attrs["lo"], "usize")
                 if isinstance(w, Opaque) and w.ty == "strlit":
                     return Int(z3.BitVecVal(len(w.attrs["lit"]), 64), "usize")
+                if isinstance(w, Opaque) and w.ty == "scratchslice":
+                    return Int(z3.BitVec("scratchlen_%d" % next(self.fresh), 64), "usize")
+                raise Unsupported("PtrMetadata of %r in %s (%r)" % (w, frame.fn.name[-60:], rv))
             raise Unsupported("unop " + rv[1])
         if k == "cast":
             return self.cast(self.operand(st, frame, rv[1]), rv[2], rv[3])
@@ -832,6 +841,8 @@ class Engine:
                 return Int(z3.BitVecVal(len(v.fields), 64), "usize")
             if isinstance(v, Opaque) and v.ty == "static":
                 return Int(z3.BitVecVal(v.attrs["size"], 64), "usize")
+            if isinstance(v, Opaque) and v.ty in ("symslice", "inputslice"):
+                return Int(v.attrs["len"], "usize")
             raise Unsupported("Len of %r" % (v,))
         raise Unsupported("rvalue %r" % (rv,))
 
